@@ -19,6 +19,7 @@ Tie: for generated parameter sets x temperatures / strains
 import io
 import json
 import math
+import struct
 import os
 import random
 import re
@@ -394,9 +395,19 @@ def run_sensor(run, kind, plist, label, collect):
         case0 = {"kind": kind, "params": p, "xs": list(xs)}
         try:
             sc = make_scaling(kind, p)
-            ys = [float(u) for u in sc.scale(np.array(vs, dtype=np.float64))]
+            volts = np.array(vs, dtype=np.float64)
+            ys = [float(u) for u in sc.scale(volts)]
             # the same values must come out one at a time (element-wise code paths)
             ys1 = [float(sc.scale(np.array([v], dtype=np.float64))[0]) for v in vs]
+            # ... and when the SAME voltage array is scaled again (a scaling that computes in place on the
+            # caller's float64 array returns the right quantity once and garbage afterwards)
+            again = [float(u) for u in sc.scale(volts)]
+            if [struct.pack("<d", a) for a in again] != [struct.pack("<d", a) for a in ys]:
+                k = next(i for i, (a, b) in enumerate(zip(again, ys)) if struct.pack("<d", a) != struct.pack("<d", b))
+                run.violation(kind + "-inverse",
+                              "%s scaling applied twice to the same float64 voltage array: first %r, then %r for "
+                              "voltage %r (params %r) - the array passed in was modified" % (kind, ys[k], again[k], vs[k], p),
+                              case0, expected=ys[k], actual=again[k])
         except Exception as e:  # a physically meaningful input must not raise
             run.violation(kind + "-raises", "%s scaling raised %r" % (kind, e), case0, actual=repr(e))
             run.cov["evaluations"] += len(xs)
